@@ -139,10 +139,132 @@ def callable_stream(ctx, res, n):
             res.violate("C12:reset-not-reevaluated", "reset does not evaluate the callable default anew", {"stream": "callable"})
 
 
+def env_empty_stream(ctx, res, n):
+    """a value loaded for a field whose environment variable is set but empty is held and user-defined"""
+    import cincoconfig as cc
+    for i in range(n):
+        with P.EmptyEnv(ctx.rng, "C12") as ee:
+            cfg = ee.schema()
+            fresh_defined = [p for p in ee.leaves() if cc.is_value_defined(cfg, ".".join(p))]
+            res.case(("env-empty", i), kind="env-empty")
+            if fresh_defined:
+                res.violate("C12:fresh-defined", "a freshly built configuration reports fields as user-defined (empty environment variables)", {"stream": "env-empty", "paths": fresh_defined})
+            route = ctx.rng.choice(["load_tree", "loads"])
+            if route == "load_tree":
+                cfg.load_tree(copy.deepcopy(ee.values))
+            else:
+                cfg.loads(json.dumps(ee.values).encode(), format="json")
+            tree = cc.asdict(cfg)
+            for p in ee.leaves():
+                if ee.get(tree, p) != ee.get(ee.values, p):
+                    res.violate("C12:loaded-value-dropped", "a loaded value is not held although its environment variable is only set to the empty string",
+                                {"stream": "env-empty", "route": route, "path": list(p), "held": ee.get(tree, p), "document": ee.get(ee.values, p)})
+                elif not cc.is_value_defined(cfg, ".".join(p)):
+                    res.violate("C12:loaded-not-defined", "a loaded field is reported as not user-defined", {"stream": "env-empty", "route": route, "path": list(p)})
+            cc.reset_value(cfg, "db.pool.size")
+            if cfg.db.pool.size != 5 or cc.is_value_defined(cfg, "db.pool.size"):
+                res.violate("C12:reset", "reset does not restore the declared default / undefined status", {"stream": "env-empty"})
+
+
+def mutable_default_stream(ctx, res, n):
+    """declared defaults that are containers of containers (also behind an item field that keeps its items as they are): every
+    fresh configuration and every reset exposes the *declared* value, whatever was done in place to an earlier copy"""
+    import cincoconfig as cc
+    from cincoconfig.core import AnyField
+    rng = ctx.rng
+    makers = [
+        ("list-of-untyped-dicts", lambda: cc.ListField(cc.DictField(), default=[{"header": "x-env", "values": ["prod"]}]), lambda v: v[0]["values"].append("edited")),
+        ("list-of-untyped-lists", lambda: cc.ListField(cc.ListField(), default=[[1, 2], [3]]), lambda v: v[0].append(99)),
+        ("list-of-any", lambda: cc.ListField(AnyField(), default=[{"k": [1]}]), lambda v: v[0]["k"].append(2)),
+        ("dict-of-any", lambda: cc.DictField(cc.StringField(), AnyField(), default={"a": [1]}), lambda v: v["a"].append(2)),
+        ("untyped-list", lambda: cc.ListField(default=[[1]]), lambda v: v[0].append(2)),
+        ("untyped-dict", lambda: cc.DictField(default={"a": {"b": [1]}}), lambda v: v["a"]["b"].append(2)),
+        ("any", lambda: AnyField(default={"a": [1]}), lambda v: v["a"].append(2)),
+        ("typed-nested", lambda: cc.ListField(cc.ListField(cc.IntField()), default=[[1], [2]]), lambda v: v[0].append(5)),
+        ("callable", lambda: cc.ListField(cc.DictField(), default=lambda: [{"n": [1]}]), lambda v: v[0]["n"].append(2)),
+    ]
+    for i in range(n):
+        name, mk, mutate = rng.choice(makers)
+        s = cc.Schema()
+        where = rng.choice(["root", "sub", "item"])
+        if where == "root":
+            s.x = mk()
+            get = lambda c: c
+        elif where == "sub":
+            s.fw.rules.x = mk()
+            get = lambda c: c.fw.rules
+        else:
+            item = cc.Schema()
+            item.x = mk()
+            s.sub.items = cc.ListField(item, default=lambda: [])
+            get = None
+        case = {"stream": "mutable-default", "kind": name, "where": where}
+        res.case(("mutable-default", name, where), kind="mutable-default")
+        a = s()
+        if where == "item":
+            a.sub.items.append({})
+            a.sub.items.append({})
+            owner, sibling = a.sub.items[0], a.sub.items[1]
+        else:
+            owner, sibling = get(a), None
+        declared = copy.deepcopy(C.plain_copy(owner.x)) if hasattr(C, "plain_copy") else copy.deepcopy(owner.x)
+        mutate(owner.x)
+        b = s()
+        if where == "item":
+            b.sub.items.append({})
+            fresh_val = b.sub.items[0].x
+        else:
+            fresh_val = get(b).x
+        if C.plain_copy(fresh_val) != declared:
+            res.violate("C12:fresh-default", "a freshly built configuration does not expose the declared default (an earlier configuration edited its copy in place)",
+                        dict(case, got=F.enc_val(C.plain_copy(fresh_val)), want=F.enc_val(declared)))
+        if sibling is not None and C.plain_copy(sibling.x) != declared:
+            res.violate("C12:fresh-default", "a sibling list item does not expose the declared default", dict(case, got=F.enc_val(C.plain_copy(sibling.x))))
+        cc.reset_value(owner, "x")
+        if C.plain_copy(owner.x) != declared or cc.is_value_defined(owner, "x"):
+            res.violate("C12:reset", "reset does not restore the declared default", dict(case, got=F.enc_val(C.plain_copy(owner.x)), want=F.enc_val(declared)))
+
+
+def challenge_default_stream(ctx, res, n):
+    """a ChallengeField's declared default (plain text, also the empty string; constant or callable) is held as a digest of it, in
+    fresh configurations and after reset"""
+    import cincoconfig as cc
+    from cincoconfig.fields import DigestValue
+    rng = ctx.rng
+    for i in range(n):
+        plain = rng.choice(["", "", "hunter2", " ", "0", "pässwörd"])
+        alg = rng.choice(["md5", "sha1", "sha256", "sha512"])
+        dflt = plain if rng.random() < 0.5 else (lambda p=plain: p)
+        s = cc.Schema()
+        s.auth.guest.password = cc.ChallengeField(alg, default=dflt)
+        case = {"stream": "challenge-default", "default": plain, "alg": alg, "callable": callable(dflt)}
+        res.case(("challenge-default", plain, alg, callable(dflt)), kind="challenge-default")
+        cfg = s()
+        for stage in ("fresh", "after reset"):
+            v = cfg.auth.guest.password
+            ok = isinstance(v, DigestValue)
+            if ok:
+                try:
+                    v.challenge(plain)
+                except ValueError:
+                    ok = False
+            if not ok:
+                res.violate("C12:challenge-default-not-hashed", "%s: the declared default of a ChallengeField is not held as its digest" % stage,
+                            dict(case, held=repr(v)[:60]))
+                break
+            if cc.is_value_defined(cfg, "auth.guest.password"):
+                res.violate("C12:fresh-defined", "%s: the default is reported as user-defined" % stage, case)
+            cfg.auth.guest.password = "other"
+            cc.reset_value(cfg, "auth.guest.password")
+
+
 def run(ctx, n_quick=250, n_thorough=8000):
     res = Result()
     P.run_stream(ctx, res, "C12", ctx.n(n_quick, n_thorough), oracle, gen_ops=gen_ops)
     callable_stream(ctx, res, ctx.n(3, 30))
+    env_empty_stream(ctx, res, ctx.n(4, 60))
+    mutable_default_stream(ctx, res, ctx.n(40, 1500))
+    challenge_default_stream(ctx, res, ctx.n(20, 400))
     return res
 
 
